@@ -181,7 +181,7 @@ func c06One(r *rep.Run, w *c06worker, src string, ci int, st *c06stats, deep boo
 
 func c06(r *rep.Run) {
 	tokLen, chLen := 5, 5
-	r.SetBudget(150e9)
+	r.SetBudget(300e9)
 	if r.Thorough() {
 		tokLen, chLen = 6, 7
 		r.SetBudget(2400e9)
